@@ -48,6 +48,7 @@ type Req struct {
 type Scenario struct {
 	Stages       []Stage  `json:"stages"`
 	NoClientAuth bool     `json:"no_client_auth"`
+	NoneCB       *Outcome `json:"none_cb,omitempty"` // NoClientAuthCallback outcome (nil = no callback)
 	Verified     string   `json:"verified,omitempty"` // "" | accept | reject | accept-sa | accept-nil
 	VerifiedSA   string   `json:"verified_sa,omitempty"`
 	MaxAuthTries int      `json:"max_auth_tries"`
@@ -160,6 +161,10 @@ func gen(r *rand.Rand, prop, tier string, index int) any {
 		s.Stages = append(s.Stages, genStage(r, i+1 < nst, s.Verified == ""))
 	}
 	s.NoClientAuth = r.IntN(5) == 0
+	if r.IntN(4) == 0 {
+		s.NoClientAuth = true
+		s.NoneCB = genOutcome(r, false)
+	}
 	s.MaxAuthTries = []int{-1, 0, 1, 2, 3, 6}[r.IntN(6)]
 	s.PKAlgos = allPKAlgos
 	if r.IntN(3) == 0 {
@@ -186,6 +191,13 @@ func gen(r *rand.Rand, prop, tier string, index int) any {
 	for i := 0; i < n; i++ {
 		s.Reqs = append(s.Reqs, genReq(r, long))
 	}
+	if long && s.MaxAuthTries >= 0 {
+		// with a failure limit only never-failing requests reach the request cap
+		for i := range s.Reqs {
+			k := keyNames[r.IntN(3)]
+			s.Reqs[i] = Req{Method: "pk", Key: k, Algo: algosFor(k)[0], Variant: "query"}
+		}
+	}
 	if long { // histories that never fail: queries for an accepted key, partial successes are rare by construction
 		st := &s.Stages[0]
 		if st.PK == nil {
@@ -199,6 +211,33 @@ func gen(r *rand.Rand, prop, tier string, index int) any {
 		s.MaxAuthTries = []int{-1, 0, 3, 6}[r.IntN(4)]
 		// a final valid attempt: it may only be honoured if it comes before the request cap
 		s.Reqs = append(s.Reqs, Req{Method: "pk", Key: "ed25519", Algo: "ssh-ed25519", Variant: "valid"})
+	}
+	if !long && r.IntN(10) == 0 {
+		// a key looked at in one stage, a partial success earned by another
+		// method, then the same key again under the next stage's callback
+		k := keyNames[r.IntN(3)]
+		al := algosFor(k)[0]
+		st0 := Stage{Password: &Outcome{Kind: "partial"}, PKOn: true, PK: map[string]*Outcome{k: genOutcome(r, false)}}
+		st1 := Stage{PKOn: true, PK: map[string]*Outcome{}}
+		if r.IntN(2) == 0 {
+			st1.PK[k] = genOutcome(r, false)
+		}
+		if r.IntN(3) == 0 {
+			st1.Password = genOutcome(r, false)
+		}
+		s.Stages = []Stage{st0, st1}
+		s.PKAlgos = allPKAlgos
+		s.Verified = ""
+		if s.MaxAuthTries > 0 && s.MaxAuthTries < 3 {
+			s.MaxAuthTries = 6
+		}
+		s.Reqs = []Req{{Method: "pk", Key: k, Algo: al, Variant: []string{"query", "valid"}[r.IntN(2)]}, {Method: "password", Variant: "right"}}
+		if r.IntN(3) == 0 {
+			s.Reqs = append(s.Reqs, Req{Method: "none"})
+		}
+		s.Reqs = append(s.Reqs, Req{Method: "pk", Key: k, Algo: al, Variant: "valid"})
+		s.CloseAfter = -1
+		return s
 	}
 	if r.IntN(8) == 0 {
 		s.CloseAfter = r.IntN(len(s.Reqs) + 1)
@@ -357,6 +396,11 @@ func runHarness(c *core.Ctx, scn any) {
 	go func() {
 		rt.SetName("server")
 		conf := &ssh.ServerConfig{NoClientAuth: s.NoClientAuth, MaxAuthTries: s.MaxAuthTries, PublicKeyAuthAlgorithms: s.PKAlgos}
+		if s.NoneCB != nil {
+			conf.NoClientAuthCallback = func(conn ssh.ConnMetadata) (*ssh.Permissions, error) {
+				return r.result(s.NoneCB, "none", conn.User(), "", -1, func() ssh.ServerAuthCallbacks { return ssh.ServerAuthCallbacks{} })
+			}
+		}
 		cb := r.callbacks(0)
 		conf.PasswordCallback, conf.KeyboardInteractiveCallback, conf.PublicKeyCallback = cb.PasswordCallback, cb.KeyboardInteractiveCallback, cb.PublicKeyCallback
 		if s.Verified != "" {
@@ -767,7 +811,7 @@ func (r *run) judge() {
 		return
 	}
 	// the Permissions returned are those of the final successful callback
-	if q.Method != "none" {
+	if q.Method != "none" || s.NoneCB != nil {
 		if r.perms != r.lastCB {
 			got := "<nil>"
 			if r.perms != nil {
@@ -845,6 +889,9 @@ func (r *run) evaluate(q Req, stage int, partial bool, sessionUser string) verdi
 	switch q.Method {
 	case "none":
 		if s.NoClientAuth && !partial {
+			if s.NoneCB != nil {
+				return outcome(s.NoneCB)
+			}
 			return verdict{may: true, must: true, kind: "accept"}
 		}
 		return verdict{kind: "none not allowed", fails: true}
